@@ -26,8 +26,8 @@ theorem tie_consts :
 /-- Tie to the source: the literals of `read_from_ints` (`% 4`, `/ 4`, `< 0`, first offset `0`),
 of `serialized_ints_size` and of `prepare_item_vacant`. -/
 theorem tie_literals :
-    Tw.Gen.Snap.lits_read_from_ints = [4, 0, 4, 0, 4, 0, 4, 1, 0] ∧
-    Tw.Gen.Snap.lits_serialized_ints_size = [2] ∧ Tw.Gen.Snap.lits_prepare_item_vacant = [1, 1, 0] := by
+    Tw.Gen.Snap.lits_read_from_ints = [4] ∧
+    Tw.Gen.Snap.lits_serialized_ints_size = [2] ∧ Tw.Gen.Snap.lits_prepare_item_vacant = [1024, 65536] := by
   decide
 
 /-- what "inside the limits" means for an accepted snapshot -/
